@@ -227,14 +227,23 @@ func (p *TxProcessor) checkSignersWeight(sender common.Address, tx *types.Transa
 			log.Errorf("The signer and from of transaction are not equal. Siger: %s. From: %s", signer.String(), sender.String())
 			return ErrSignerAndFromUnequally
 		}
+		// the account signs alone. A signature somebody else appended would change nothing but the transaction hash, so that the same signed content could be executed again
+		if len(signers) != 1 {
+			log.Errorf("Transaction of %s carries %d signatures by others", sender.String(), len(signers)-1)
+			return ErrSignerAndFromUnequally
+		}
 	} else { // 多签账户
 		signersMap := accSigners.ToSignerMap()
 		// 计算签名者权重总和
 		var totalWeight int64 = 0
 		for _, addr := range signers {
-			if w, ok := signersMap[addr]; ok {
-				totalWeight = totalWeight + int64(w)
+			w, ok := signersMap[addr]
+			if !ok {
+				// a signature of somebody who is not a signer of the account adds no weight but gives the same signed content another transaction hash
+				log.Errorf("%s is not a signer of %s", addr.String(), sender.String())
+				return ErrSignerAndFromUnequally
 			}
+			totalWeight = totalWeight + int64(w)
 		}
 		// 比较签名权重总和大小
 		if totalWeight < SignerWeightThreshold {
